@@ -363,7 +363,13 @@ function runShard(info, thorough) {
         rep.transitions += 1
         if (ev.skipped) { rep.count('skipped:' + ev.skipped); continue }
         if (ev.panic) { rep.machineryErrors.push('compiler panicked on ' + text + ': ' + JSON.stringify(ev.panic)); continue }
-        if (ev.rejected) { rep.count('rejected-by-the-parser'); if (v === 0) rep.count('rejected:' + ev.rejected[0]); continue }
+        if (ev.rejected) {
+          rep.count('rejected-by-the-parser')
+          // the expression language has no quoted object keys and no surrogate escapes: those two are counted; any
+          // other shape of the model is documented syntax, and rejecting it loses the expression
+          if (!/\{'[^']*':|\\ud[89ab]/i.test(text) && !/^(file rejected|template missing)$/.test(ev.rejected[0])) rep.violation('C03|well-formed-expression-rejected|' + ev.rejected[0], `the parser rejects {{ ${text} }} with "${ev.rejected[0]}"`, { engine: 'c03', expr: text, kind: 'rejected' })
+        }
+        if (ev.rejected) { if (v === 0) { rep.count('rejected:' + ev.rejected[0]); if (process.env.C03_DEBUG_REJECT) require('fs').appendFileSync(process.env.C03_DEBUG_REJECT, text + '\t' + ev.rejected[0] + '\n') } continue }
         if (ev.loadErr) {
           // syntactically invalid output: C02's business, but nothing can be evaluated here
           rep.count('generated-code-does-not-load')
@@ -409,6 +415,10 @@ function runShard(info, thorough) {
 }
 
 function replayOne(rec) {
+  if (rec.kind === 'rejected') {
+    const ev = compileTexts([rec.expr], false)[0]
+    return { deterministic: true, failure: ev.rejected ? `the parser rejects {{ ${rec.expr} }} with "${ev.rejected[0]}"` : null }
+  }
   const e = rec.tree
   const ev = compileTexts([M.printMin(e)], !!rec.scoped)[0]
   if (!ev.eval) return { deterministic: true, failure: null, note: 'not accepted by the compiler any more' }
@@ -433,7 +443,7 @@ async function main() {
     'every expression tree of operator depth <= d over 6 unary, 23 binary, ?:, 5 member names, index, call (0-2 args), array literals (holes at every position, spreads), object literals (named, string key, spread, shorthand), explicit parentheses, in every operand position; every number / string / keyword literal of the pool in 11 positions; three spellings each (minimal parentheses, fully parenthesised, comments between tokens); every data environment a, b over the 20-value pool, c over 6 (quick) / 20 (thorough) values. non-trivial = the expression has a free name; distinct = distinct expression text',
     { operator_depth: thorough ? 3 : 2, pool: POOL_NAMES, shapes: allShapes(thorough).length },
     true,
-    ['V8 evaluates the reference (sloppy mode) and the generated code', 'the reference is the model tree fully parenthesised with null-safe member reads and plain-function calls, nothing else', 'expressions the parser rejects with an Error-level diagnostic are outside the property and counted'],
+    ['V8 evaluates the reference (sloppy mode) and the generated code', 'the reference is the model tree fully parenthesised with null-safe member reads and plain-function calls, nothing else', 'the expression language has no quoted object keys and no surrogate-pair escapes: shapes with those are rejected by the parser and counted; the rejection of any other shape is reported'],
     {})
   C.writeResult(C.argAfter('--out', C.WORK + '/C03.result.json'), res)
 }
